@@ -80,7 +80,7 @@ fn point(_name: &'static str) {
             CV.notify_all();
             return;
         }
-        let (ng, timeout) = CV.wait_timeout(g, Duration::from_millis(2000)).unwrap();
+        let (ng, timeout) = CV.wait_timeout(g, Duration::from_millis(250)).unwrap();
         g = ng;
         if timeout.timed_out() {
             // the granted thread is blocked on something else: give up on the schedule (reported in the trace)
@@ -328,12 +328,211 @@ fn run_race(c: &Cmd, pre: &[Act], a1: Act, a2: Act, order: Vec<usize>) -> Option
     ))
 }
 
+// ---------------------------------------------------------------- corerace scenario (several threads on one Core)
+
+type Prog = Vec<(u32, Cmd, Vec<Vec<Instr>>)>;
+static PROGRAM: Mutex<Prog> = Mutex::new(vec![]);
+static IN_UPDATE: std::sync::atomic::AtomicBool = std::sync::atomic::AtomicBool::new(false);
+static CONCURRENT_UPDATE: std::sync::atomic::AtomicBool = std::sync::atomic::AtomicBool::new(false);
+const PROBE_TAG: u32 = 999;
+
+#[derive(Default)]
+pub struct ConcApp;
+
+impl crux_core::App for ConcApp {
+    type Event = Event;
+    type Model = Vec<Event>;
+    type ViewModel = Vec<Event>;
+    type Capabilities = Caps;
+    type Effect = Effect;
+
+    fn update(&self, ev: Event, model: &mut Vec<Event>, caps: &Caps) -> Command<Effect, Event> {
+        use std::sync::atomic::Ordering::SeqCst;
+        if IN_UPDATE.swap(true, SeqCst) {
+            CONCURRENT_UPDATE.store(true, SeqCst);
+        }
+        model.push(ev.clone());
+        let entry = PROGRAM.lock().unwrap().iter().find(|(t, _, _)| *t == ev.tag).cloned();
+        let cmd = match entry {
+            Some((_, c, legacy)) => {
+                for l in legacy {
+                    let ctx = caps.cap.context.clone();
+                    let env = Env::with_event(ev.v);
+                    let l = Arc::new(l);
+                    caps.cap.context.spawn(async move {
+                        run_block_legacy(ctx, env, l).await;
+                    });
+                }
+                let mut aborts: Aborts = vec![];
+                build(&c, &Env::with_event(ev.v), &mut aborts)
+            }
+            None => Command::done(),
+        };
+        IN_UPDATE.store(false, SeqCst);
+        cmd
+    }
+
+    fn view(&self, model: &Vec<Event>) -> Vec<Event> {
+        model.clone()
+    }
+}
+
+fn parse_prog(s: &Sexp) -> Option<Prog> {
+    s.as_list()?
+        .iter()
+        .map(|e| {
+            let xs = e.as_list()?;
+            let legacy = xs[2.min(xs.len())..]
+                .iter()
+                .map(|l| match l.form()? {
+                    ("legacy", is) => parse_instrs(is),
+                    _ => None,
+                })
+                .collect::<Option<Vec<_>>>()?;
+            Some((xs.first()?.num()?, parse_cmd(xs.get(1)?)?, legacy))
+        })
+        .collect()
+}
+
+#[derive(Clone, Debug)]
+enum CAct {
+    Ev(u32, i64),
+    Res(usize, i64),
+    View,
+}
+fn parse_cact(s: &Sexp) -> Option<CAct> {
+    Some(match s.form()? {
+        ("ev", [t, v]) => CAct::Ev(t.num()?, v.num()?),
+        ("res", [k, v]) => CAct::Res(k.num()?, v.num()?),
+        ("view", []) => CAct::View,
+        _ => return None,
+    })
+}
+
+fn run_corerace(prog: Prog, pre: &[CAct], acts: &[CAct], order: Vec<usize>) -> Option<String> {
+    use std::sync::atomic::Ordering::SeqCst;
+    *PROGRAM.lock().unwrap() = prog;
+    IN_UPDATE.store(false, SeqCst);
+    CONCURRENT_UPDATE.store(false, SeqCst);
+    let core: crux_core::Core<ConcApp> = crux_core::Core::new();
+    let mut reqs: Vec<Option<Request<TestOp>>> = vec![];
+    let key = |r: &Request<TestOp>| (r.operation.n, r.operation.v, kind_char(r.verif_kind()));
+    let record = |effs: Vec<Effect>, reqs: &mut Vec<Option<Request<TestOp>>>| {
+        let mut new: Vec<Request<TestOp>> = effs.into_iter().map(|Effect::Cap(r)| r).collect();
+        new.sort_by_key(key);
+        reqs.extend(new.into_iter().map(Some));
+    };
+    // sequential prefix, each call followed by the no-op probe (as in the rt engine's Core host)
+    for a in pre {
+        match a {
+            CAct::Ev(t, v) => record(core.process_event(Event { tag: *t, v: *v }), &mut reqs),
+            CAct::Res(k, v) => {
+                if let Some(Some(r)) = reqs.get_mut(*k) {
+                    if let Ok(effs) = core.resolve(r, *v) {
+                        record(effs, &mut reqs);
+                    }
+                }
+            }
+            CAct::View => {
+                let _ = core.view();
+            }
+        }
+        record(core.process_event(Event { tag: PROBE_TAG, v: 0 }), &mut reqs);
+    }
+    // the concurrent calls; a thread that resolves takes its request out first and hands it back afterwards
+    let n = acts.len();
+    let mut taken: Vec<Option<Option<Request<TestOp>>>> = acts
+        .iter()
+        .map(|a| match a {
+            CAct::Res(k, _) => Some(reqs.get_mut(*k).and_then(|s| s.take())),
+            _ => None,
+        })
+        .collect();
+    // (result class, keys of the returned effects, the request used, the returned effects — kept alive: dropping a
+    // returned request would close its channel)
+    let mut results: Vec<(String, Vec<(u32, i64, char)>, Option<Request<TestOp>>, Vec<Effect>)> =
+        (0..n).map(|_| (String::new(), vec![], None, vec![])).collect();
+    let core_ref = &core;
+    let ((), _trace, stuck) = with_schedule(order, n, || {
+        std::thread::scope(|s| {
+            for (i, (a, slot)) in acts.iter().zip(results.iter_mut()).enumerate() {
+                let r = taken[i].take();
+                s.spawn(move || {
+                    as_thread(i, || {
+                        let keyf = |r: &Request<TestOp>| (r.operation.n, r.operation.v, kind_char(r.verif_kind()));
+                        match (a, r) {
+                            (CAct::Ev(t, v), _) => {
+                                let effs = core_ref.process_event(Event { tag: *t, v: *v });
+                                slot.0 = "ok".into();
+                                slot.1 = effs.iter().map(|Effect::Cap(r)| keyf(r)).collect();
+                                slot.3 = effs;
+                            }
+                            (CAct::View, _) => {
+                                let _ = core_ref.view();
+                                slot.0 = "-".into();
+                            }
+                            (CAct::Res(_, v), Some(Some(mut r))) => {
+                                match core_ref.resolve(&mut r, *v) {
+                                    Ok(effs) => {
+                                        slot.0 = "ok".into();
+                                        slot.1 = effs.iter().map(|Effect::Cap(r)| keyf(r)).collect();
+                                        slot.3 = effs;
+                                    }
+                                    Err(crux_core::ResolveError::Never) => slot.0 = "never".into(),
+                                    Err(crux_core::ResolveError::FinishedMany) => slot.0 = "finished".into(),
+                                }
+                                slot.2 = Some(r);
+                            }
+                            _ => slot.0 = "noreq".into(),
+                        }
+                    })
+                });
+            }
+        });
+    });
+    for (a, slot) in acts.iter().zip(results.iter_mut()) {
+        if let (CAct::Res(k, _), Some(r)) = (a, slot.2.take()) {
+            if let Some(s) = reqs.get_mut(*k) {
+                *s = Some(r);
+            }
+        }
+    }
+    // leftovers: the probe after all calls have returned
+    let probe_effs = core.process_event(Event { tag: PROBE_TAG, v: 0 });
+    let probe: Vec<(u32, i64, char)> = probe_effs.iter().map(|Effect::Cap(r)| key(r)).collect();
+    let mut union: Vec<(u32, i64, char)> = results.iter().flat_map(|r| r.1.iter().cloned()).collect();
+    union.sort();
+    let mut log: Vec<(u32, i64)> =
+        core.view().iter().filter(|e| e.tag != PROBE_TAG).map(|e| (e.tag, e.v)).collect();
+    log.sort();
+    let (tasks, ready, spawn, requests, events) = core.verif_stats();
+    Some(format!(
+        "R[{}] E{{{}}} P{{{}}} L{{{}}} s{} q{}.{}.{}.{}{}{}",
+        results.iter().map(|r| r.0.clone()).collect::<Vec<_>>().join(","),
+        union.iter().map(|(n, v, k)| format!("{n}:{v}:{k}")).collect::<Vec<_>>().join(","),
+        probe.iter().map(|(n, v, k)| format!("{n}:{v}:{k}")).collect::<Vec<_>>().join(","),
+        log.iter().map(|(t, v)| format!("{t}:{v}")).collect::<Vec<_>>().join(","),
+        tasks,
+        ready,
+        spawn,
+        requests,
+        events,
+        if CONCURRENT_UPDATE.load(SeqCst) { " CONCURRENT-UPDATE" } else { "" },
+        if stuck { " STUCK" } else { "" }
+    ))
+}
+
 fn run_case(line: &str) -> Option<String> {
     let s = sexp::parse(line)?;
     let (kind, args) = s.form()?;
     let order_of = |o: &Sexp| -> Option<Vec<usize>> { o.as_list()?.iter().map(|x| x.num()).collect() };
     match (kind, args) {
         ("evict", [n, order]) => Some(run_evict(n.num()?, order_of(order)?)),
+        ("corerace", [prog, pre, acts, order]) => {
+            let pre: Vec<CAct> = pre.as_list()?.iter().map(parse_cact).collect::<Option<_>>()?;
+            let acts: Vec<CAct> = acts.as_list()?.iter().map(parse_cact).collect::<Option<_>>()?;
+            run_corerace(parse_prog(prog)?, &pre, &acts, order_of(order)?)
+        }
         ("race", [c, pre, a1, a2, order]) => {
             let pre: Vec<Act> = pre.as_list()?.iter().map(parse_act).collect::<Option<_>>()?;
             run_race(&parse_cmd(c)?, &pre, parse_act(a1)?, parse_act(a2)?, order_of(order)?)
@@ -462,6 +661,63 @@ fn gen_race(seed: u64, n: usize) {
     }
 }
 
+fn gen_corerace(seed: u64, n: usize) {
+    use harness::gen::Gen;
+    let out = std::io::stdout();
+    let mut out = std::io::BufWriter::new(out.lock());
+    let mut g = Gen {
+        r: Rng::new(seed),
+        next_handle: 0,
+        next_abort: 0,
+        emit_tags: vec![10, 11],
+        allow_abortable: false,
+        unique_ops: true,
+        next_op: 0,
+    };
+    for _ in 0..n {
+        g.next_handle = 0;
+        g.next_op = 0;
+        let mut prog = vec![];
+        for t in 1..=3u32 {
+            g.emit_tags = (t + 1..=3).chain([10, 11]).collect();
+            if t == 1 || g.r.chance(2, 3) {
+                let c = g.cmd(2, 4, 5);
+                let mut entry = vec![atom(t), c.sexp()];
+                entry.extend(g.legacy_tasks());
+                prog.push(list(entry));
+            }
+        }
+        let mut pre = vec![list(vec![atom("ev"), atom(1), atom(g.r.below(4))])];
+        for j in 0..g.r.below(3) {
+            pre.push(match g.r.below(3) {
+                0 => list(vec![atom("ev"), atom(1 + g.r.below(3)), atom(j)]),
+                _ => list(vec![atom("res"), atom(g.r.below(4)), atom(100 + j)]),
+            });
+        }
+        let nthreads = 2 + g.r.below(2);
+        let mut acts = vec![];
+        let mut used = vec![];
+        for i in 0..nthreads {
+            acts.push(match g.r.below(6) {
+                0 => list(vec![atom("view")]),
+                1 | 2 => list(vec![atom("ev"), atom(1 + g.r.below(3)), atom(5 + i)]),
+                _ => {
+                    let mut k = g.r.below(5);
+                    while used.contains(&k) {
+                        k += 1;
+                    }
+                    used.push(k);
+                    list(vec![atom("res"), atom(k), atom(200 + i)])
+                }
+            });
+        }
+        let len = 6 + g.r.below(30);
+        let order: Vec<usize> = (0..len).map(|_| g.r.below(nthreads) as usize).collect();
+        let line = list(vec![atom("corerace"), list(prog), list(pre), list(acts), order_sexp(&order)]);
+        writeln!(out, "{line}").unwrap();
+    }
+}
+
 fn main() {
     let args: Vec<String> = std::env::args().collect();
     match args.get(1).map(String::as_str) {
@@ -470,6 +726,7 @@ fn main() {
             let n: usize = args[3].parse().unwrap();
             match args.get(4).map(String::as_str).unwrap_or("evict") {
                 "evict" => gen_evict(seed, n),
+                "corerace" => gen_corerace(seed, n),
                 _ => gen_race(seed, n),
             }
         }
